@@ -84,3 +84,28 @@ extern "C" void h_c29_response(unsigned long key_kind, unsigned long vlen, unsig
     verif_assert(g_read == g_wire.size(), "C29: the client consumes exactly the response");
     verif_reach("parsed");
 }
+// a long single value: the chunk list of `entries` chunks as handle_list formats it (64 hex digits,size,state,ttl per line); the first
+// and last characters of the list and the last digit of every 50th line are symbolic. The list is longer than the 16 KiB the client
+// used to allow per line.
+extern "C" void h_c29_long(unsigned long entries) {
+    ControlFields fields; fields["CODE"] = "OK_LIST";
+    std::string value;
+    for (unsigned long e = 0; e < entries; ++e) {
+        if (e) value.push_back('\n');
+        for (int i = 0; i < 64; ++i) value.push_back("0123456789abcdef"[(e + i) & 15]);
+        value += ",1048576,complete,360";
+        if (e % 50 == 0) { const std::uint8_t c = nondet_u8("digit"); verif_assume(c >= '0' && c <= '9'); value.push_back(static_cast<char>(c)); } else value.push_back('0');
+    }
+    { const std::uint8_t c = nondet_u8("first"); verif_assume((c >= '0' && c <= '9') || (c >= 'a' && c <= 'f')); value[0] = static_cast<char>(c); }
+    fields["ENTRIES"] = value; fields["COUNT"] = std::to_string(entries);
+    g_wire.clear(); g_read = 0;
+    server_side::Impl::send_response(5, fields, true, std::span<const std::uint8_t>());
+    const ControlResponse got = client_side::parse_response(5, nullptr);
+    verif_assert(got.success, "C29: the client sees the status the daemon sent");
+    const auto it = got.fields.find("ENTRIES");
+    verif_assert(it != got.fields.end() && it->second == value, "C29: a chunk list of any length reaches the client intact");
+    const auto cnt = got.fields.find("COUNT");
+    verif_assert(cnt != got.fields.end() && cnt->second == std::to_string(entries), "C29: the fields after a long value are not lost");
+    verif_assert(g_read == g_wire.size(), "C29: the client consumes exactly the response");
+    verif_reach("parsed-long");
+}
